@@ -119,16 +119,29 @@ func c15PanicClass(p any) string {
 	return "other"
 }
 
-func c15RunT[T any](c *c15Case, vals []reflect.Value) *c15Impl {
+func c15RunT[I, T any](c *c15Case, vals []reflect.Value) *c15Impl {
 	impl := &c15Impl{}
 	var z *T
 	rt := reflect.TypeOf(z).Elem()
 	ctx := context.Background()
-	var r compose.Runnable[string, T]
+	var r compose.Runnable[I, T]
 	var cerr error
+	// the workflow input: the value of the declaration whose predecessor is START, else a trigger
+	var input I
+	if s, ok := any("x").(I); ok {
+		input = s
+	}
+	for i, d := range c.Decls {
+		if d.Pred == compose.START {
+			input = vals[i].Interface().(I)
+		}
+	}
 	if panicked, pv := vh.Safely(func() {
-		wf := compose.NewWorkflow[string, T]()
+		wf := compose.NewWorkflow[I, T]()
 		for i, d := range c.Decls {
+			if d.Pred == compose.START {
+				continue
+			}
 			v := vals[i]
 			ti := c15Types[d.TyName]
 			wf.AddLambdaNode(d.Pred, ti.lambda(func() any { return v.Interface() })).AddInput(compose.START)
@@ -168,7 +181,7 @@ func c15RunT[T any](c *c15Case, vals []reflect.Value) *c15Impl {
 		finished := false
 		panicked, pv := vh.Safely(func() {
 			finished = vh.WithTimeout(20*time.Second, func() {
-				out, err := r.Invoke(ctx, "x")
+				out, err := r.Invoke(ctx, input)
 				if err != nil {
 					run = c15Run{Class: "err"}
 					c15Debug("invoke error: %.400v", err)
@@ -201,7 +214,7 @@ func c15RunT[T any](c *c15Case, vals []reflect.Value) *c15Impl {
 		finished := false
 		panicked, pv := vh.Safely(func() {
 			finished = vh.WithTimeout(20*time.Second, func() {
-				sr, err := r.Stream(ctx, "x")
+				sr, err := r.Stream(ctx, input)
 				if err != nil {
 					run = c15Run{Class: "err"}
 					c15Debug("stream error: %.400v", err)
@@ -263,7 +276,17 @@ func c15RunImpl(c *c15Case) *c15Impl {
 		}
 		vals[i] = v
 	}
-	return ti.run(c, vals)
+	in := "Str"
+	for _, d := range c.Decls {
+		if d.Pred == compose.START {
+			in = d.TyName
+		}
+	}
+	run, ok := ti.run[in]
+	if !ok {
+		return &c15Impl{BuildFailed: "START cannot have type " + in}
+	}
+	return run(c, vals)
 }
 
 // ---------------------------------------------------------------------------------------
@@ -574,6 +597,14 @@ func c15One(ctx *vh.Ctx, c *c15Case, count bool) ([]c15Finding, string, error) {
 		}
 		ctx.Res.Dist("target=" + c.TargetName)
 		ctx.Res.Dist(fmt.Sprintf("preds=%d", len(c.Decls)))
+		for _, d := range c.Decls {
+			if d.Pred == compose.START {
+				ctx.Res.Dist("pred=START")
+			}
+			if len(d.Maps) == 0 {
+				ctx.Res.Dist("decl=whole-output")
+			}
+		}
 		ctx.Res.Dist(fmt.Sprintf("mappings=%d", nm))
 		ctx.Res.Dist(fmt.Sprintf("maxdepth=%d", depth))
 		ctx.Res.Dist("gen=" + c.Stream)
@@ -619,6 +650,9 @@ func c15Key(c *c15Case) string {
 		sb.WriteString("|node")
 	}
 	for _, d := range c.Decls {
+		if d.Pred == compose.START {
+			sb.WriteString("|START")
+		}
 		sb.WriteString("|" + d.TyName + ":")
 		for _, m := range d.Maps {
 			sb.WriteString(strings.Join(m.From, ".") + ">" + strings.Join(m.To, ".") + ",")
@@ -647,8 +681,8 @@ func c15Pick(r *vh.Rand, names []string, weights []int) string {
 }
 
 var (
-	c15TargetNames   = []string{"Top", "PTop", "Mid", "PMid", "MapAny", "MapStr", "MapLeaf", "MapPMid", "Any", "Leaf", "Str"}
-	c15TargetWeights = []int{34, 10, 10, 5, 10, 5, 6, 6, 6, 5, 3}
+	c15TargetNames   = []string{"Top", "PTop", "Mid", "PMid", "MapAny", "MapStr", "MapLeaf", "MapPMid", "MapMid", "Any", "Leaf", "Str"}
+	c15TargetWeights = []int{32, 10, 10, 5, 10, 5, 5, 5, 6, 6, 4, 2}
 	c15SourceNames   = []string{"Top", "PTop", "Mid", "PMid", "Leaf", "PLeaf", "MapAny", "MapStr", "MapLeaf", "MapPMid"}
 	c15SourceWeights = []int{38, 10, 15, 6, 5, 3, 10, 5, 4, 4}
 	c15DynTypes      = []reflect.Type{reflect.TypeOf(""), reflect.TypeOf(0), reflect.TypeOf(C15Leaf{}), reflect.TypeOf(&C15Leaf{}),
@@ -712,19 +746,26 @@ func c15GenCase(r *vh.Rand) *c15Case {
 		paths []c15PathInfo
 	}
 	var preds []pred
+	startPred := r.Chance(30)
 	for i := 0; i < nPred; i++ {
 		tn := c15Pick(r, c15SourceNames, c15SourceWeights)
+		name := fmt.Sprintf("p%d", i)
+		if i == 0 && startPred {
+			// START itself is a mapped predecessor: its output is the workflow input
+			tn = []string{"Top", "Top", "MapAny"}[r.Intn(3)]
+			name = compose.START
+		}
 		st := c15Types[tn]
 		v := c15GenVal(r, st.rt, 4)
 		var ps []c15PathInfo
 		c15SourcePaths(v, 4, nil, false, &ps)
-		if r.Chance(35) {
+		if r.Chance(22) {
 			// statically valid paths, whether or not they resolve on this value (nil pointers,
 			// nil interfaces, absent map keys on the way)
 			c15TargetPaths(st.rt, 3, nil, false, &ps)
 		}
-		preds = append(preds, pred{name: fmt.Sprintf("p%d", i), val: v, paths: ps})
-		c.Decls = append(c.Decls, c15Decl{Pred: fmt.Sprintf("p%d", i), TyName: tn, Ty: st.desc, Val: c15Enc(v)})
+		preds = append(preds, pred{name: name, val: v, paths: ps})
+		c.Decls = append(c.Decls, c15Decl{Pred: name, TyName: tn, Ty: st.desc, Val: c15Enc(v)})
 	}
 	var tps []c15PathInfo
 	c15TargetPaths(tt.rt, 4, nil, false, &tps)
@@ -890,13 +931,15 @@ func c15Fixed() []*c15Case {
 	leaf := C15Leaf{S: "leaf", N: 5}
 	v := reflect.ValueOf(C15Top{S: "s", N: 3, L: leaf, PL: &C15Leaf{S: "pl", N: 9}, Mid: C15Mid{S: "mid", L: leaf}, A: C15Leaf{S: "dyn", N: 1}})
 	vNil := reflect.ValueOf(C15Top{S: "s", Mid: C15Mid{S: "mid"}})
-	mk := func(val reflect.Value, groups ...[]c15Map) *c15Case {
-		c := &c15Case{TargetName: "Top", Target: top.desc, Stream: "fixed"}
+	vStr := reflect.ValueOf(C15Top{S: "s", A: "hello"})
+	mkT := func(target string, val reflect.Value, groups ...[]c15Map) *c15Case {
+		c := &c15Case{TargetName: target, Target: c15Types[target].desc, Stream: "fixed"}
 		for i, g := range groups {
 			c.Decls = append(c.Decls, c15Decl{Pred: fmt.Sprintf("p%d", i), TyName: "Top", Ty: top.desc, Val: c15Enc(val), Maps: g})
 		}
 		return c
 	}
+	mk := func(val reflect.Value, groups ...[]c15Map) *c15Case { return mkT("Top", val, groups...) }
 	m := func(from, to string) c15Map {
 		sp := func(s string) []string {
 			if s == "" {
@@ -923,6 +966,20 @@ func c15Fixed() []*c15Case {
 		mk(v, []c15Map{m("A.Nope", "S")}),
 		// non-overlapping, accepted
 		mk(v, []c15Map{m("S", "Mid.S"), m("L", "Mid.L")}, []c15Map{m("N", "MA.k1"), m("PL", "PL")}),
+		// trailing_segment_accepted_as_found: a last segment on a string field
+		mk(v, []c15Map{m("S", "S.x")}),
+		// checker_uses_last_mapping_as_found: A holds a struct, not a string
+		mk(v, []c15Map{m("A", "S"), m("A", "B")}),
+		// two fields of one struct held by value in a map; a field two levels below such an entry
+		mk(v, []c15Map{m("S", "ML.k1.S"), m("N", "ML.k1.N")}),
+		mkT("MapMid", v, []c15Map{m("S", "k1.L.S")}),
+		// interface-typed source field in streaming execution (run-time checker in stream form)
+		mk(vStr, []c15Map{m("A", "S")}),
+		// a nil interface value into a map[string]*T entry / into the whole (map-typed) input
+		mk(vNil, []c15Map{m("A", "MPL.k1")}),
+		mkT("MapStr", vNil, []c15Map{m("A", "")}),
+		// interface-typed successor input, no key present in the only stream chunk
+		mkT("Any", vNil, []c15Map{m("MS.nokey", "k1")}),
 	}
 }
 
